@@ -391,6 +391,45 @@ def gen_record_facts(repo):
             and ast.unparse(n) == "self._record_buffer.extend(buffer)"]
     if len(recs) != 1 or recs[0].lineno >= loops[0].lineno:
         raise Untranslatable("_render_buffer: the record is not extended with the buffer before the loop")
+    # NO_COLOR filter: `if self.no_color and color_system: buffer = Segment.remove_color(buffer)`, AFTER the record
+    # was extended (the record keeps the unfiltered segments; remove_color returns a one-shot generator)
+    filt = [n for n in rb.body if isinstance(n, ast.If) and any(
+        isinstance(m, ast.Call) and ast.unparse(m.func).endswith("remove_color") for m in ast.walk(n))]
+    if (len(filt) != 1 or filt[0].orelse or len(filt[0].body) != 1
+            or ast.unparse(filt[0].body[0]) != "buffer = Segment.remove_color(buffer)"
+            or {ast.unparse(v) for v in getattr(_resolve(filt[0].test, ral), "values", [])}
+            != {"self.no_color", "self._color_system"}
+            or not isinstance(_resolve(filt[0].test, ral).op, ast.And)):
+        raise Untranslatable("_render_buffer: the NO_COLOR filter is not `if self.no_color and color_system: buffer = Segment.remove_color(buffer)`")
+    if not (recs[0].lineno < filt[0].lineno < loops[0].lineno):
+        raise Untranslatable("_render_buffer: the record is not extended BEFORE the NO_COLOR filter (it must keep the unfiltered buffer)")
+    # Segment.remove_color: truthy style -> style.without_color, anything else -> None, text and control flag kept
+    rc = find_func(find_class(stree, "Segment").body, "remove_color")
+    rcl = [n for n in rc.body if isinstance(n, ast.For)]
+    if len(rcl) != 1 or len(_names(rcl[0].target)) != 3:
+        raise Untranslatable("Segment.remove_color: expected one  for text, style, is_control in segments  loop")
+    rt, rs, rcv = _names(rcl[0].target)
+    rcal = _aliases(rc)
+
+    def rc_outcome(style):
+        ev = []
+
+        def handler(st):
+            if isinstance(st, ast.Expr) and isinstance(st.value, ast.Yield):
+                ev.append(ast.unparse(st.value.value))
+                return True
+            if isinstance(st, ast.Assign) and ast.unparse(st.targets[0]) in ("colorless_style", "cache[style]"):
+                ev.append(ast.unparse(st))
+                return True
+            return False
+        env = {rs: style, "colorless_style is None": True, "==:None|colorless_style": True}
+        _run(rcl[0].body, env, {}, handler, "Segment.remove_color")
+        return ev
+    if rc_outcome(False) != [f"cls({rt}, None, {rcv})"]:
+        raise Untranslatable(f"Segment.remove_color: falsy style -> {rc_outcome(False)}")
+    got = rc_outcome(True)
+    if not (got and got[-1] == f"cls({rt}, colorless_style, {rcv})" and f"colorless_style = {rs}.without_color" in got):
+        raise Untranslatable(f"Segment.remove_color: truthy style -> {got}")
 
     def rb_outcome(style, term, ctl):
         env = {sv: style, cv: ctl, "self.is_terminal": term}
